@@ -188,33 +188,6 @@ def modelPq (fs : List (String × String)) (ops : List String) : Option (String 
   | none => pure ("panic", "panic")
   | some (recs, tags) => pure (" | ".intercalate recs, ",".intercalate tags.eraseDups)
 
-def parseIdxMap (s : String) : Option IdxMap :=
-  if s == "-" then some [] else
-  (s.splitOn ",").mapM fun kv => match kv.splitOn ":" with
-    | [k, v] => do pure (← k.toNat?, ← v.toNat?)
-    | _ => none
-
-/-- C26 on `pq`: whenever the implementation's commit index moves to `N`, the voters of the
-    configuration *in force* (the model's cache: it changes only when a config entry is applied) that
-    are known to hold `N` (implementation's own match indexes), leader included, must be a strict
-    majority of that configuration; and the implementation's cached voter set must be that configuration. -/
-def monitorPq : PqSt → List PqOp → Nat → List String → Option String
-  | _, [], _, _ => none
-  | _, _ :: _, _, [] => some "missing-record"
-  | s, op :: rest, preCommit, rec :: more =>
-    match pqStep s op with
-    | none => some "unexpected-panic-model"
-    | some (s', _, _) =>
-      match numField rec "c", (bracket rec "m").bind parseIdxMap, (bracket rec "v").bind natList with
-      | some c, some m, some v =>
-        let inForce := voterPeers s'.leader.targets
-        let isApply := match op with | .apply => true | _ => false
-        if !isApply && c > preCommit && !s'.leader.singleVoter &&
-            holders c inForce m * 2 ≤ inForce.length + 1 then some "commit-quorum-of-unapplied-config"
-        else if v.mergeSort (· ≤ ·) != inForce.mergeSort (· ≤ ·) then some "cached-voters-ahead-of-applied-config"
-        else monitorPq s' rest c more
-      | _, _, _ => some "unparsable-output"
-
 /-! ## kind `jn` -/
 
 def parseJnOp (op : String) : JnOp :=
@@ -269,6 +242,33 @@ def bracket (rec : String) (key : String) : Option String :=
 def numField (rec : String) (key : String) : Option Nat :=
   (rec.splitOn " ").findSome? fun tok =>
     if tok.startsWith key then (tok.drop key.length).toString.toNat? else none
+
+def parseIdxMap (s : String) : Option IdxMap :=
+  if s == "-" then some [] else
+  (s.splitOn ",").mapM fun kv => match kv.splitOn ":" with
+    | [k, v] => do pure (← k.toNat?, ← v.toNat?)
+    | _ => none
+
+/-- C26 on `pq`: whenever the implementation's commit index moves to `N`, the voters of the
+    configuration *in force* (the model's cache: it changes only when a config entry is applied) that
+    are known to hold `N` (implementation's own match indexes), leader included, must be a strict
+    majority of that configuration; and the implementation's cached voter set must be that configuration. -/
+def monitorPq : PqSt → List PqOp → Nat → List String → Option String
+  | _, [], _, _ => none
+  | _, _ :: _, _, [] => some "missing-record"
+  | s, op :: rest, preCommit, rec :: more =>
+    match pqStep s op with
+    | none => some "unexpected-panic-model"
+    | some (s', _, _) =>
+      match numField rec "c", (bracket rec "m").bind parseIdxMap, (bracket rec "v").bind natList with
+      | some c, some m, some v =>
+        let inForce := voterPeers s'.leader.targets
+        let isApply := match op with | .apply => true | _ => false
+        if !isApply && c > preCommit && !s'.leader.singleVoter &&
+            holders c inForce m * 2 ≤ inForce.length + 1 then some "commit-quorum-of-unapplied-config"
+        else if v.mergeSort (· ≤ ·) != inForce.mergeSort (· ≤ ·) then some "cached-voters-ahead-of-applied-config"
+        else monitorPq s' rest c more
+      | _, _, _ => some "unparsable-output"
 
 /-- C26: in every observed state, no two nodes' own voter sets admit disjoint majorities -/
 def monitorC26 (fs : List (String × String)) (ops : List String) (out : String) : String :=
